@@ -66,14 +66,22 @@ def run_combine(inloglam, flux, newloglam, ivar, kwargs):
         return orig_aes(flux_, invvar_, method=method)
     SP.smooth, SP.aesthetics = spy_smooth, spy_aes
     iv = None if ivar is None else ivar.copy()
+    a_in, a_fl, a_new = inloglam.copy(), flux.copy(), newloglam.copy()      # caller-owned arrays
     try:
         with warnings.catch_warnings():
             warnings.simplefilter('ignore')
-            nf, ni = SP.combine1fiber(inloglam.copy(), flux.copy(), newloglam.copy(), objivar=iv, **kwargs)
+            nf, ni = SP.combine1fiber(a_in, a_fl, a_new, objivar=iv, **kwargs)
     finally:
         SP.iterfit = orig
         SP.smooth, SP.aesthetics = orig_smooth, orig_aes
-    out = {'newflux': fl(nf), 'newivar': fl(ni), 'len_flux': int(np.asarray(nf).size), 'len_ivar': int(np.asarray(ni).size),
+    def same(a, b):
+        return a.dtype == b.dtype and a.shape == b.shape and bool(np.array_equal(a, b, equal_nan=True))
+    mutated = [nm for nm, a, b in (('inloglam', a_in, inloglam), ('objflux', a_fl, flux), ('newloglam', a_new, newloglam)) if not same(a, b)]
+    aliases = bool(any(np.shares_memory(r_, a) for r_ in (nf, ni) for a in (a_in, a_fl, a_new) + (() if iv is None else (iv,))))
+    out = {'args_mutated': mutated, 'result_aliases_arg': aliases,
+           # objivar is an in/out argument in the IDL original (rejected pixels are zeroed); observed, not judged
+           'objivar_modified': bool(iv is not None and not same(iv, ivar)),
+           'newflux': fl(nf), 'newivar': fl(ni), 'len_flux': int(np.asarray(nf).size), 'len_ivar': int(np.asarray(ni).size),
            'finite': bool(np.all(np.isfinite(nf)) and np.all(np.isfinite(ni)))}
     if 'pre_ivar' in stage and 'pre_flux' in stage and all(np.isfinite(stage['pre_ivar'])) and all(np.isfinite(stage['pre_flux'])):
         out['pre_ivar'] = stage['pre_ivar']
@@ -158,15 +166,23 @@ def do_preprocess(c):
     loglam = arr(c['loglam'])
     z = arr(c['zfit'])
     newloglam = arr(c['newloglam'])
+    args = [flux.copy(), ivar.copy(), loglam.copy(), z.copy(), newloglam.copy()]       # caller-owned arrays
     try:
         with warnings.catch_warnings():
             warnings.simplefilter('ignore')
-            f, i, l = preprocess_spectra(flux.copy(), ivar.copy(), loglam=loglam.copy(), zfit=z.copy(),
-                                         newloglam=newloglam.copy(), aesthetics=c.get('aesthetics', 'mean'))
+            f, i, l = preprocess_spectra(args[0], args[1], loglam=args[2], zfit=args[3],
+                                         newloglam=args[4], aesthetics=c.get('aesthetics', 'mean'))
+            # the same call again with the very same array objects (object spectra, then e.g. sky spectra)
+            f2, i2, l2 = preprocess_spectra(args[0], args[1], loglam=args[2], zfit=args[3],
+                                            newloglam=args[4], aesthetics=c.get('aesthetics', 'mean'))
     except Exception as e:  # noqa: BLE001
         return err(e, 'preprocess_spectra')
+    names = ('flux', 'ivar', 'loglam', 'zfit', 'newloglam')
+    orig = (flux, ivar, loglam, z, newloglam)
     out = {'flux': [fl(r) for r in f], 'ivar': [fl(r) for r in i], 'loglam_same': bool(np.array_equal(l, newloglam)),
-           'finite': bool(np.all(np.isfinite(f)) and np.all(np.isfinite(i))), 'shape': list(np.asarray(f).shape)}
+           'finite': bool(np.all(np.isfinite(f)) and np.all(np.isfinite(i))), 'shape': list(np.asarray(f).shape),
+           'args_mutated': [nm for nm, a, b in zip(names, args, orig) if not (a.dtype == b.dtype and np.array_equal(a, b, equal_nan=True))],
+           'second_call_same': bool(np.array_equal(f, f2, equal_nan=True) and np.array_equal(i, i2, equal_nan=True))}
     direct = []
     dl = newloglam[1] - newloglam[0]
     for k in range(flux.shape[0]):
